@@ -127,6 +127,10 @@ def main(out):
         # leaf is a CA certificate / wrong key usage
         write(out, prefix + "_leafku", chain=chain(mk(subj, skey, iname, ikey, [ext_ku(["keyCertSign"])]), cas), sign=skey,
               enc="enc" if with_enc else None)
+        # ... the same restriction in a keyUsage extension that is NOT marked critical (criticality says whether an unknown extension may be ignored, not
+        # whether a known one applies), and a leaf whose only permitted use is key encipherment offered as the signing certificate
+        write(out, prefix + "_leafkunc", chain=chain(mk(subj, skey, iname, ikey, [ext_ku(["keyCertSign"], crit=False)]), cas), sign=skey, enc="enc" if with_enc else None)
+        write(out, prefix + "_leafencnc", chain=chain(mk(subj, skey, iname, ikey, [ext_ku(["keyEncipherment"], crit=False)]), cas), sign=skey, enc="enc" if with_enc else None)
         # pathLen violated: two CAs below a pathLen-0 CA
         ca1_bad = mk("VCA1", "ca1", "VRoot", "root", ca_exts(0))
         leaf3 = mk(subj, skey, "VCA2", "ca2", LEAF_SIGN)
